@@ -49,7 +49,11 @@ DefStream ==
      surfaced |-> FALSE,    \* returned by accept() / poll_push
      refused  |-> FALSE,    \* E wrote RST_STREAM(REFUSED_STREAM)
      mustRefuse |-> FALSE,
-     hdrPending |-> FALSE]  \* send_request accepted, HEADERS not yet on the wire
+     hdrPending |-> FALSE,  \* send_request accepted, HEADERS not yet on the wire
+     inAfterRst |-> FALSE,  \* a DATA/HEADERS frame of the peer was handed to E after E's RST_STREAM (it raced with it)
+     wantBeforeOpen |-> FALSE, \* the application reset the stream before its HEADERS were on the wire
+     inSince |-> 0, inNeed |-> 2]  \* frames handed to E since the cause of a reset (the application's call, else the stream's
+                            \* first frame); >= inNeed of them means some raced with E's RST_STREAM still sitting in its codec
 
 \* ---- monitor state ----------------------------------------------------------
 Init(role, cfg) ==
@@ -115,8 +119,8 @@ OutLife(m, f, l) ==
         m4 == IF s = 0 \/ ty \in {"CONTINUATION", "PRIORITY"} THEN m3
               ELSE IF x.o = "rst"
               THEN Viol(Hit(m3, "C04.after_rst"), "C04.after_rst", l, s,
-                        IF ty = "RST_STREAM" /\ x.rstOutCode = REFUSED_STREAM /\ f.ch = 0 /\ f.cl = STREAM_CLOSED /\ x.want = ""
-                        THEN "stream_closed_after_refused" ELSE ty)
+                        IF ty = "RST_STREAM" /\ f.ch = 0 /\ f.cl = STREAM_CLOSED /\ x.inAfterRst
+                        THEN "stream_closed_for_late_frame_on_forgotten_stream" ELSE ty)
               ELSE IF x.o = "es"
               THEN Check(m3, "C04.after_es", ty \in {"WINDOW_UPDATE", "RST_STREAM"}, l, s, ty)
               ELSE IF x.rstBound
@@ -226,7 +230,11 @@ OutResets(m, f, l) ==
     IF f.ty = "RST_STREAM" /\ f.bad = ""
     THEN LET s == f.sid
              x == S(m, s)
-             m1 == IF x.want # "" THEN Check(m, "C17.single_rst", x.rstOut = 0, l, s, "second RST_STREAM") ELSE m
+             m1 == IF x.want # ""
+                   THEN Check(m, "C17.single_rst", x.rstOut = 0, l, s,
+                              IF f.ch = 0 /\ f.cl = STREAM_CLOSED /\ x.inAfterRst
+                              THEN "stream_closed_for_late_frame_on_forgotten_stream" ELSE "second RST_STREAM")
+                   ELSE m
              m2 == IF x.i = "rst" /\ x.rstBound
                    THEN Viol(Hit(m1, "C17.rst_for_rst"), "C17.rst_for_rst", l, s, "RST_STREAM in response to RST_STREAM")
                    ELSE m1
@@ -238,6 +246,7 @@ OutResets(m, f, l) ==
                    THEN Viol(Hit(m3, "C17.rst_after_clean"), "C17.rst_after_clean", l, s, "RST_STREAM for a stream that had closed cleanly")
                    ELSE m3
          IN SetS(m4, s, [x EXCEPT !.rstOut = x.rstOut + 1, !.o = "rst",
+                                  !.inAfterRst = x.inAfterRst \/ x.inSince >= x.inNeed,
                                   !.rstOutCode = IF f.ch < 32768 THEN Code(f) ELSE -2,
                                   !.refused = x.refused \/ (f.ch = 0 /\ f.cl = REFUSED_STREAM),
                                   !.rdead = TRUE, !.hdrPending = FALSE])
@@ -264,7 +273,9 @@ OutAfterGoAway(m, f, l) ==
 OutAfterUserReset(m, f, l) ==
     LET x == S(m, f.sid)
     IN IF f.sid # 0 /\ f.ty \in {"DATA", "HEADERS"} /\ x.want = "reset" /\ x.wantFl /\ x.rstOut = 0 /\ ~x.hdrPending
-       THEN Viol(Hit(m, "C17.data_after_reset"), "C17.data_after_reset", l, f.sid, "stream data written after the application reset the stream")
+       THEN Viol(Hit(m, "C17.data_after_reset"), "C17.data_after_reset", l, f.sid,
+                 IF x.wantBeforeOpen /\ f.ty = "DATA" THEN "queued_data_sent_when_reset_before_headers_written"
+                 ELSE "stream data written after the application reset the stream")
        ELSE m
 
 ApplyOut(m, f) ==
@@ -302,7 +313,8 @@ StepOut(m, f, l) ==
 StepIn(m, f, l) ==
     LET s  == f.sid
         x0 == S(m, s)
-        x  == [x0 EXCEPT !.inAny = TRUE]
+        x  == [x0 EXCEPT !.inAny = TRUE, !.inSince = x0.inSince + 1,
+                         !.inAfterRst = x0.inAfterRst \/ (x0.rstOut > 0 /\ f.ty \in {"DATA", "HEADERS", "CONTINUATION", "WINDOW_UPDATE"})]
         ty == f.ty
         ok == f.bad = ""
         mm == IF s # 0 THEN SetS(m, s, x) ELSE m
@@ -376,6 +388,9 @@ StepApi(m, e, l) ==
                               !.wantCode = IF x.want = "" THEN (IF e.ch < 32768 THEN e.ch * 65536 + e.cl ELSE -2) ELSE x.wantCode,
                               !.wantAt = l,
                               !.cleanAtWant = IF x.want = "" THEN StreamClosedClean(x) ELSE x.cleanAtWant,
+                              !.wantBeforeOpen = IF x.want = "" THEN x.o = "idle" ELSE x.wantBeforeOpen,
+                              !.inSince = IF x.want = "" THEN 0 ELSE x.inSince,
+                              !.inNeed = IF x.want = "" THEN 1 ELSE x.inNeed,
                               !.rdead = TRUE])
     ELSE IF c = "send_request" /\ e.res = "ok"
     THEN SetS(m, s, [x EXCEPT !.hdrPending = TRUE, !.apiEos = e.eos, !.surfaced = TRUE])
@@ -425,8 +440,12 @@ StepQ(m, e, l) ==
         heldAll == LET ss == DOMAIN m.st
                        F[T \in SUBSET ss] == IF T = {} THEN 0 ELSE LET t == CHOOSE t \in T : TRUE IN HeldBy(m.st[t]) + F[T \ {t}]
                    IN F[ss]
+        respDropped == {s \in DOMAIN m.st : m.st[s].respDrop /\ ~m.st[s].sendDrop /\ m.st[s].rstOut = 0
+                                              /\ m.st[s].i # "rst" /\ m.st[s].rcvd > m.st[s].rel}
         m2 == IF m.czeroed \/ m.rcw <= 0
-              THEN Check(m1, "C03.conn_leak", heldAll > 0, l, 0, <<m.rcw, heldAll>>)
+              THEN Check(m1, "C03.conn_leak", heldAll > 0, l, 0,
+                         IF respDropped # {} THEN "data_buffered_for_dropped_response_future_while_send_handle_lives"
+                         ELSE <<m.rcw, heldAll>>)
               ELSE m1
         stuck == {s \in DOMAIN m.st : /\ m.st[s].zeroed /\ ~m.st[s].rdead /\ m.st[s].i = "open"
                                        /\ m.st[s].o # "rst" /\ HeldBy(m.st[s]) = 0}
